@@ -60,6 +60,12 @@ Observed ==
         /\ TickRules /\ OneFramePerPeriod /\ DisabledIsSilent
         /\ (FixedSkipOverrun \/ s.tm < s.pd) => (SkipIsTicks /\ NoIrqInHorizon /\ SkipNeverFails)
 
+\* "the empty interrupt fires exactly when a pop empties the queue", on every observed call that
+\* came back normally
+ObservedIrq ==
+    [][outc' = "ok" =>
+          Irqs(ev') = (IF Frames(ev') # <<>> /\ s.q # <<>> /\ s'.q = <<>> THEN 1 ELSE 0)]_tvars
+
 TraceAccepted ==
     /\ PrintT(<<"TRACE_MATCHED", TLCGet("stats").diameter - 1, Len(Log)>>)
     /\ TLCGet("stats").diameter - 1 = Len(Log)
